@@ -81,6 +81,9 @@ std::string RefsManager::GenerateResolved(std::string_view text) {
 
 const Reference* RefsManager::Insert(Reference newRef, const StrPos insWhere) {
   assert(context != nullptr);
+  if (!newRef.IsValid()) {
+    return nullptr;
+  }
   auto it = std::find_if(begin(refs), end(refs),
                          [&](const Reference& hold)
                          { return hold.position.start >= insWhere; });
